@@ -630,6 +630,9 @@ def spec_socks_response_roundtrip(ck, version, hostmax=HOSTMAX):
     rcell = st.alloc(resp)
     wcell = new_stream(ex, st, 'client', Bytes.from_terms([]))
     ex.inputs = dict(parts, reply_code=cmd)
+    if version == 4:
+        # caller-guaranteed: a SOCKS4 reply carries the request's own target (IPv4 or domain) or 0.0.0.0:0, never IPv6
+        ex.assume(st, z3.Not(z3.And(parts['kind'] == BV(ex.si.enums['TargetAddress'].index('SocketAddr'), 64), parts['fam'] == BV(1, 64))))
     outs = run_async(ex, st, wt, [Ref(rcell, ()), Ref(wcell, ())])
     vn = ex.si.enums['TargetAddress']
     iD = vn.index('DomainPort')
